@@ -295,3 +295,36 @@ def h3_units(ctx, obj, stop):
     fr = ctx.vals(g.freq)
     ctx.oblige('geometric_mtf_frequency_axis', len(fr) == 3 and ctx.And(ctx.eq(fr[0], 0.0), ctx.eq(fr[1] * 2, cut), ctx.eq(fr[2], cut)))
     ctx.observe('w', w)
+
+
+@harness('C11', 'H4_view_is_read_only', funcs=['optiland.psf.FFTPSF.view', 'optiland.psf.FFTPSF.strehl_ratio', 'optiland.psf.FFTPSF._compute_psf'],
+         cases=lambda tier: [dict(projection=p, log=lg) for p in ('2d', '3d') for lg in (False, True)],
+         stubs=['FFTPSF._find_bounds -> a fixed valid window (whole array, or rows/columns 1..2 for the 3d cases)', 'FFTPSF._get_psf_units -> (1, 1)',
+                'FFTPSF._interpolate_psf (scipy zoom) -> its argument', 'FFTPSF._plot_2d / _plot_3d (matplotlib) -> empty bodies'],
+         bounds='4 x 4 PSF of symbolic wavefront errors and intensities; one or two view() calls; display window fixed by the stub',
+         doc='displaying the PSF does not change it: after view() every pixel of .psf and the Strehl ratio are what they were before, whatever '
+             'the pixel values (the PSF stays the normalised squared DFT of the pupil for later readers and for FFTMTF)')
+def h4_view(ctx, projection, log):
+    from optiland.psf import FFTPSF
+    n = 4
+    W = [ctx.real(f'W{i}', lo=-30.0, hi=30.0) for i in range(4)]
+    I = [ctx.real(f'I{i}', lo=0.01, hi=10.0) for i in range(4)]
+    p = make_psf(ctx, W, I, n=n)
+    before = [[ctx.val(p.psf[u, v]) for v in range(n)] for u in range(n)]
+    s_before = ctx.val(p.strehl_ratio())
+    win = (0, 0, n, n) if projection == '2d' else (1, 1, 3, 3)
+    shown = []
+    p._find_bounds = lambda threshold=0.05: win
+    p._get_psf_units = lambda image: (1.0, 1.0)
+    p._interpolate_psf = lambda image, num_points=128: image
+    p._plot_2d = lambda image, log_, xe, ye, figsize=None: shown.append(image)
+    p._plot_3d = lambda image, log_, xe, ye, figsize=None: shown.append(image)
+    p.view(projection=projection, log=log)
+    if log:
+        p.view(projection=projection, log=log)       # (a second look must not compound anything either)
+    ctx.oblige('something_was_shown', len(shown) == (2 if log else 1))
+    for u in range(n):
+        for v in range(n):
+            ctx.oblige(f'pixel_{u}{v}_unchanged_by_view', ctx.eq(ctx.val(p.psf[u, v]), before[u][v]))
+    ctx.oblige('strehl_unchanged_by_view', ctx.eq(ctx.val(p.strehl_ratio()), s_before))
+    ctx.observe('strehl', s_before)
